@@ -84,11 +84,62 @@ def project(path):
         return e
 
     pending_try = {}
+    # bulk transfer of the whole buffer into a collection: `vec.extend(queue.drain(..))` / `vec.extend(mem::take(&mut queue))`
+    bulk = {}  # value of the drain()/take() call -> the extend() that consumes it
+    for ev in path.events:
+        if ev.kind == 'call' and ev.name == 'std::iter::Extend::extend' and len(ev.args) == 2:
+            srcv = ev.args[1]
+            if srcv[0] == 'call' and srcv[3] and ci_field_ref(srcv[3][0]) == 'queue':
+                if srcv[2] == VD + 'drain' and len(srcv[3]) == 2 and srcv[3][1][0] == 'agg' and srcv[3][1][1].endswith('RangeFull'):
+                    bulk[srcv] = ev
+                elif srcv[2] in ('std::mem::take',):
+                    bulk[srcv] = ev
+    def iter_source(v, depth=0):
+        """what an iterator value iterates over: ('drain',) for queue.drain(..), ('range', end) for 0..end, else None"""
+        if v is None or depth > 4:
+            return None
+        if v[0] in ('ref', 'rawptr') and len(v) > 2 and v[2] is not None:
+            return iter_source(v[2], depth + 1)
+        if v[0] == 'call' and v[2] == 'std::iter::IntoIterator::into_iter' and v[3]:
+            return iter_source(v[3][0], depth + 1)
+        if v[0] == 'call' and v[2] == VD + 'drain' and len(v[3]) == 2 and ci_field_ref(v[3][0]) == 'queue' \
+                and v[3][1][0] == 'agg' and v[3][1][1].endswith('RangeFull'):
+            return ('drain', v)
+        if v[0] == 'agg' and v[1].endswith('ops::Range') and len(v[3]) == 2 and v[3][0][0] == 'const' and str(v[3][0][2]) == '0':
+            return ('range', v[3][1])
+        return None
+
+    drain_loops = set()
+    for ev in path.events:
+        if ev.kind == 'call' and ev.name == 'std::iter::Iterator::next' and ev.args:
+            s_ = iter_source(ev.args[0])
+            if s_ is not None and s_[0] == 'drain':
+                drain_loops.add(s_[1])
+    next_calls = {}   # value of a next() call on a tracked iterator -> source
+    range_iters = {}  # range end value -> [n_some]
     for ev in path.events:
         k = ev.kind
         if k == 'call':
             n = ev.name
             a = ev.args
+            if ev.val in bulk:
+                continue  # reported at the extend() that consumes it
+            if ev.val in drain_loops:
+                continue  # `for v in queue.drain(..)`: each next() below is one pop_front
+            if n == 'std::iter::Iterator::next' and a:
+                s_ = iter_source(a[0])
+                if s_ is not None and s_[0] == 'drain':
+                    next_calls[ev.val] = s_
+                    add('Q.pop_front', ev, args=(), res=ev.val, via='drain-iter')
+                    continue
+                if s_ is not None and s_[0] == 'range':
+                    next_calls[ev.val] = s_
+            if n == 'std::iter::Extend::extend' and len(a) == 2 and a[1] in bulk:
+                add('Q.drain_all', ev, args=(), res=a[1], vec=a[0], via=a[1][2])
+                # for the rules that ask "was the buffer looked at and found empty": afterwards it is empty
+                add('Q.pop_front', ev, args=(), res=('bulk', a[1]), synthetic=True)
+                add('BR', ev, label='pop', outcome='None', val=('bulk', a[1]), synthetic=True)
+                continue
             if n == 'internal::acquire_internal':
                 e = add('LOCK', ev, guard=ev.val, nested=bool(held))
                 sid = sec_counter[0]
@@ -158,6 +209,28 @@ def project(path):
                 held.append((tok, sid))
                 e.data['sid'] = sid
                 add('BR', ev, label=ev.label, outcome=ev.outcome, val=ev.val)
+                continue
+            src_ = None
+            if ev.label == 'iter_next' and ev.val[0] == 'discr' and ev.val[1] in next_calls:
+                src_ = next_calls[ev.val[1]]
+            if src_ is not None and src_[0] == 'drain':
+                add('BR', ev, label='pop', outcome=ev.outcome, val=ev.val)
+                continue
+            if src_ is not None and src_[0] == 'range':
+                add('BR', ev, label=ev.label, outcome=ev.outcome, val=ev.val)
+                st_ = range_iters.setdefault(src_[1], [0])
+                if ev.outcome == 'Some':
+                    st_[0] += 1
+                else:
+                    # `for _ in 0..queue.len() { pop_front() }` under one lock: when the range is exhausted and every
+                    # iteration popped exactly once, the buffer is empty - the counted form of `while let Some(..) = pop_front()`
+                    ql = [x for x in out if x.name == 'Q.len' and x.data.get('res') == src_[1] and x.sec is not None and x.sec == cur()]
+                    if ql:
+                        since = [x for x in out if x.idx > ql[-1].idx and x.name.startswith('Q.') and x.name not in ('Q.len', 'Q.is_empty', 'Q.capacity')]
+                        if all(x.name == 'Q.pop_front' for x in since) and len(since) == st_[0]:
+                            add('Q.exhausted', ev, args=(), res=None, synthetic=True)
+                            add('Q.pop_front', ev, args=(), res=('counted', src_[1]), synthetic=True)
+                            add('BR', ev, label='pop', outcome='None', val=('counted', src_[1]), synthetic=True)
                 continue
             if ev.label is not None:
                 add('BR', ev, label=ev.label, outcome=ev.outcome, val=ev.val)
